@@ -291,6 +291,7 @@ func tierBudget(tier string) time.Duration {
 
 func runWorker(p *Property, tier string, w, nw int, journal string) {
 	debug.SetGCPercent(400)
+	workerStart := time.Now() // the budget includes the construction of the state space
 	layers, hang := layersWatched(p, tier)
 	if hang != "" {
 		fmt.Fprintln(os.Stderr, hang)
@@ -302,7 +303,7 @@ func runWorker(p *Property, tier string, w, nw int, journal string) {
 	rep := WorkerReport{Worker: w, Extra: map[string]int64{}}
 	c := &Ctx{prop: p, tier: tier, failKeys: map[string]bool{}, Outcomes: NewU64Set(1 << 22), Extra: rep.Extra, KnownCls: map[string]*KnownStat{}}
 	c.verbose = os.Getenv("VERIF_VERBOSE") != ""
-	c.deadline = time.Now().Add(tierBudget(tier))
+	c.deadline = workerStart.Add(tierBudget(tier))
 	var jf *os.File
 	if journal != "" {
 		jf, _ = os.Create(journal)
@@ -543,12 +544,20 @@ func layersWatched(p *Property, tier string) ([]Layer, string) {
 			limit = time.Duration(n) * time.Second
 		}
 	}
-	select {
-	case r := <-ch:
-		return r.ls, ""
-	case <-time.After(limit):
-		note, _ := progressNote.Load().(string)
-		return nil, fmt.Sprintf("constructing the state space did not terminate within %v; last transition started: %s", limit, note)
+	// hung = the same transition has been in progress for a whole period (a slow machine or a
+	// large state space only makes the construction take longer, the note keeps changing)
+	last, _ := progressNote.Load().(string)
+	for {
+		select {
+		case r := <-ch:
+			return r.ls, ""
+		case <-time.After(limit):
+			note, _ := progressNote.Load().(string)
+			if note == last {
+				return nil, fmt.Sprintf("constructing the state space did not terminate: no transition completed within %v; last transition started: %s", limit, note)
+			}
+			last = note
+		}
 	}
 }
 
@@ -855,7 +864,9 @@ func spawnWorker(exe, id, tier string, w, nw int, journal string) (*WorkerReport
 		return nil, "cannot start worker: " + err.Error()
 	}
 	go func() { done <- cmd.Wait() }()
-	limit := tierBudget(tier) + 300*time.Second
+	// last resort only: hangs are detected inside the worker (per-unit and state-space watchdogs, which
+	// look at progress); a slow or busy machine must not turn into a verdict
+	limit := 2*tierBudget(tier) + 900*time.Second
 	var err error
 	select {
 	case err = <-done:
